@@ -95,6 +95,23 @@ theorem cts_cbc_dec_enc (h : Implements c k) (iv : List Nat) (hiv : IsBlock c.le
   obtain ⟨C, he, _, _, hd⟩ := cts_cbc_all h iv hiv M hM hlen
   rw [he]; exact hd
 
+/-- the same, from the permutation hypotheses stated on the model cipher alone: on byte blocks `enc`/`dec` succeed, return
+    byte blocks and invert each other (`dec (enc b) = b`, `enc (dec b) = b`).  This is the form in which C03 delivers
+    AES, DES, TDEA, Serpent and Threefish, so "for every cipher of the library" is a corollary. -/
+theorem dec_enc_of_permutation (c : BlockCipher) (hpos : 0 < c.len)
+    (henc : ∀ b, IsBlock c.len b → ∃ y, c.enc b = .ok y ∧ IsBlock c.len y ∧ c.dec y = .ok b)
+    (hdec : ∀ y, IsBlock c.len y → ∃ b, c.dec y = .ok b ∧ IsBlock c.len b ∧ c.enc b = .ok y) :
+    (∀ s M st, Bytes M → PadDom s c.len M → (ECB.enc c (toModel s) M).bind (fun C => ECB.dec c (toModel s) C st) = .ok M) ∧
+    (∀ iv s M st, IsBlock c.len iv → Bytes M → PadDom s c.len M →
+      (CBC.enc c iv (toModel s) M).bind (fun C => CBC.dec c iv (toModel s) C st) = .ok M) ∧
+    (∀ iv M, CtrDom c.len iv → (CTR.enc c iv M).bind (CTR.dec c iv) = .ok M) ∧
+    (∀ M, Bytes M → c.len ≤ M.length → (CTS_ECB.enc c .no M).bind (CTS_ECB.dec c .no) = .ok M) ∧
+    (∀ iv M, IsBlock c.len iv → Bytes M → c.len ≤ M.length → (CTS_CBC.enc c iv .no M).bind (CTS_CBC.dec c iv .no) = .ok M) := by
+  have h := implements_of_model c hpos henc hdec
+  exact ⟨fun s M st hM hd => ecb_dec_enc h s M hM hd st, fun iv s M st hiv hM hd => cbc_dec_enc h iv hiv s M hM hd st,
+    fun iv M hiv => ctr_dec_enc h iv hiv M, fun M hM hl => cts_ecb_dec_enc h M hM hl,
+    fun iv M hiv hM hl => cts_cbc_dec_enc h iv hiv M hM hl⟩
+
 /-! ### length laws -/
 
 /-- |CTR.enc(M)| = |M| -/
